@@ -1544,7 +1544,20 @@ def gen_pipeline(repo, build):
     return "Pipeline.lean", text, info
 
 
-GENERATORS = [gen_base64, gen_alg, gen_common, gen_jwk, gen_ops, gen_cli, gen_conc, gen_ecframe, gen_ll, gen_base64code, gen_digests, gen_gates, gen_decisions, gen_dispatch, gen_claims, gen_jsonflags, gen_jwksloops, gen_pipeline]
+def gen_strcmp(repo, build):
+    """jwt-memory.c: `jwt_strcmp`, the comparison behind every name match and the HS* signature check, translated statement by
+    statement with every store wrapped in the width of the variable's declared type (tie/strcmp.py on the mini-C parser)"""
+    sys.path.insert(0, os.path.dirname(os.path.abspath(__file__)))
+    import cmini
+    import strcmp
+    try:
+        text, info = strcmp.generate(repo)
+    except (strcmp.StrcmpError, cmini.CParseError) as e:
+        raise ExtractError("jwt_strcmp: %s" % e)
+    return "StrCmpCode.lean", text, info
+
+
+GENERATORS = [gen_base64, gen_alg, gen_common, gen_jwk, gen_ops, gen_cli, gen_conc, gen_ecframe, gen_ll, gen_base64code, gen_digests, gen_gates, gen_decisions, gen_dispatch, gen_claims, gen_jsonflags, gen_jwksloops, gen_pipeline, gen_strcmp]
 
 
 def main():
